@@ -167,7 +167,7 @@ SPEC = {
     "module": "C03",
     "theorems": ["C03_layout_independent", "C03_layout_independent_trees", "C03_reserved_words", "C03_inclusiveness", "C03_grammar_refuted"],
     "more": [{"module": "C03c", "target": "props/C03c.vo",
-              "theorems": ["C03c_precedence", "C03c_precedence_parse", "C03c_grammar_trees",
+              "theorems": ["C03c_precedence", "C03c_precedence_parse", "C03c_precedence_explicit", "C03c_grammar_trees",
                            "C03c_grammar_trees_parse", "C03c_grammar_trees_value"]},
              {"module": "C03d", "target": "props/C03d.vo",
               "theorems": ["C03d_grammar_trees", "C03d_grammar_trees_parse", "C03d_grammar_trees_value",
@@ -181,8 +181,8 @@ SPEC = {
                            "C03e_f4_tree_parse", "C03e_machine_under_guard", "C03e_f4_class_accepted",
                            "C03e_same_language", "C03e_agrees_iff_outside_f4"]},
              {"module": "Lrespace", "target": "props/Lrespace.vo",
-              "theorems": ["L_respace", "L_respace_parse", "L_respace_accept",
-                           "L_respace_no_sep_condition_refuted"]}],
+              "theorems": ["L_respace", "L_respace_parse", "L_respace_accept", "L_respace_glued",
+                           "L_respace_glued_accept", "L_respace_token", "L_respace_no_sep_condition_refuted"]}],
     "correspond": correspond,
     "statement": "(a) for ANY LR tables, inputs with the same (type, lexeme) token sequence have equal trees up to "
                  "layout (or errors of the same class); (b) reserved words are operators only as whole lexemes, "
